@@ -41,6 +41,7 @@ func C08(c *Ctx) {
 		c.Inconclusive("%v", err)
 		return
 	}
+	specs = g.Specs
 	N := 4
 	if c.Thorough() {
 		N = 6
